@@ -698,7 +698,13 @@ struct Net {
 static NET: OnceLock<Net> = OnceLock::new();
 
 fn mock_body() -> String {
-    format!("##seqn!DEC:4|region!STRING:0|buildconfig!HEX:16\n1|{MOCK_MARK}|abcd1234abcd1234abcd1234abcd1234\n")
+    mock_body_for("")
+}
+
+/// The document served for a request target: the region field names the target, so that two
+/// different requests are never answered alike.
+fn mock_body_for(target: &str) -> String {
+    format!("##seqn!DEC:4|region!STRING:0|buildconfig!HEX:16\n1|{MOCK_MARK}{:016x}|abcd1234abcd1234abcd1234abcd1234\n", fnv64_str(target))
 }
 
 fn net() -> &'static Net {
@@ -744,7 +750,8 @@ async fn serve_conn(mut sock: tokio::net::TcpStream) {
             // not HTTP (e.g. a TLS ClientHello): drop the connection
             return;
         }
-        let body = mock_body();
+        let target = String::from_utf8_lossy(&head).split_whitespace().nth(1).unwrap_or("").to_string();
+        let body = mock_body_for(&target);
         let mut resp = format!("HTTP/1.1 200 OK\r\nContent-Type: text/plain\r\nContent-Length: {}\r\n\r\n", body.len()).into_bytes();
         if !is_head {
             resp.extend_from_slice(body.as_bytes());
@@ -1464,6 +1471,95 @@ fn name_pair_case(i: usize, j: usize, sb: &Sandbox, out: &mut CaseOut) {
     }
 }
 
+/// Endpoints for the pair test of `RibbitTactClient::query`: every string is offered to the real
+/// validation first; product-like segments differ only in the characters the validation admits
+/// next to letters (`_`, `-`, `.`, `/`), so a key derivation that folds one into another shows.
+const QUERY_EPS: [&str; 9] = [
+    "v1/products/wow/versions",
+    "v1/products/wow_beta/versions",
+    "v1/products/wow/beta/versions",
+    "v1/products/wow-beta/versions",
+    "v1/products/wow.beta/versions",
+    "v1/products/wowbeta/versions",
+    "v1/products/wow/cdns",
+    "v1/summary",
+    "v1/products/WOW/versions",
+];
+
+static QPAIRS_JUDGED: std::sync::atomic::AtomicU64 = std::sync::atomic::AtomicU64::new(0);
+
+/// Two distinct endpoints through the real client on one cache directory: each query must be
+/// answered with the document served for *its* endpoint (the mock's answers name the request
+/// target), by the same client and by a new one on the same directory.
+fn query_pair_case(i: usize, j: usize, sb: &Sandbox, out: &mut CaseOut) {
+    let (a, b) = (QUERY_EPS[i], QUERY_EPS[j]);
+    if !(matches!(endpoint_accepted(a), Ok(true)) && matches!(endpoint_accepted(b), Ok(true))) {
+        out.outcomes.push(fnv64_str("qpair|not-both-accepted"));
+        return;
+    }
+    sb.wipe_root();
+    let w = json!({"surface": "query-pair", "i": i, "j": j, "endpoint1": a, "endpoint2": b});
+    // the answer's identity: the mark in its region field (the Debug form of a document is not
+    // stable — it contains a HashMap)
+    let q = |c: &RibbitTactClient, e: &str| {
+        net().rt.block_on(c.query(e)).ok().map(|d| {
+            let t = format!("{d:?}");
+            t.find(MOCK_MARK).map_or_else(|| "<no mark>".to_string(), |p| t[p..].chars().take(MOCK_MARK.len() + 16).collect())
+        })
+    };
+    let Ok(c1) = RibbitTactClient::new(client_cfg(Some(&sb.root))) else { return };
+    // what the server serves for each endpoint: asked by two more clients, each on an empty
+    // cache directory of its own
+    let probe = |e: &str| {
+        let dir = Scratch::new("c20q");
+        RibbitTactClient::new(client_cfg(Some(&dir.path))).ok().and_then(|c| q(&c, e))
+    };
+    let (Some(want_a), Some(want_b)) = (probe(a), probe(b)) else {
+        out.outcomes.push(fnv64_str("qpair|probe-failed"));
+        return;
+    };
+    out.calls += 6;
+    if want_a == want_b {
+        // the client asks the server the same question for both: nothing to tell apart
+        out.outcomes.push(fnv64_str("qpair|same-request"));
+        return;
+    }
+    let l0 = sb.root_listing();
+    let got_a = q(&c1, a);
+    let l1 = sb.root_listing();
+    let got_b = q(&c1, b);
+    let l2 = sb.root_listing();
+    let again_a = q(&c1, a);
+    drop(c1);
+    let Ok(c2) = RibbitTactClient::new(client_cfg(Some(&sb.root))) else { return };
+    let (re_a, re_b) = (q(&c2, a), q(&c2, b));
+    let mut symptoms = Vec::new();
+    if got_a.is_some() && got_b.is_some() && !l1.is_subset(&l0) && l2.is_subset(&l1) {
+        symptoms.push("second-query-created-no-new-file");
+    }
+    for (name, got, want) in [("first", &got_a, &want_a), ("second", &got_b, &want_b), ("first-again", &again_a, &want_a), ("first-new-client", &re_a, &want_a), ("second-new-client", &re_b, &want_b)] {
+        if let Some(g) = got {
+            if g != want {
+                symptoms.push(if g == &want_a || g == &want_b { "answered-with-the-other-endpoints-document" } else { "answered-with-another-document" });
+                let _ = name;
+            }
+        }
+    }
+    symptoms.sort_unstable();
+    symptoms.dedup();
+    out.outcomes.push(fnv64_str(&format!("qpair|{symptoms:?}")));
+    out.nontrivial.push(fnv64_str(&format!("qpair|{i}|{j}")));
+    QPAIRS_JUDGED.fetch_add(1, std::sync::atomic::Ordering::Relaxed);
+    if !symptoms.is_empty() {
+        out.vios.push(Vio {
+            kind: "pair-collision",
+            sig: format!("query-pair:{}", symptoms.join("+")),
+            detail: format!("distinct accepted endpoints {a:?} and {b:?} on one cache directory: files after the first query {:?}, after the second {:?}; the second query was answered with {} document; answers (first, second, first again, first by a new client, second by a new client) = {:?}, served for the two endpoints on empty caches: {:?}", l1.difference(&l0).collect::<Vec<_>>(), l2.difference(&l1).collect::<Vec<_>>(), if got_b.as_ref() == Some(&want_b) { "its own" } else { "another" }, [&got_a, &got_b, &again_a, &re_a, &re_b], [&want_a, &want_b]),
+            witness: w,
+        });
+    }
+}
+
 // ---------------------------------------------------------------------------------------
 // driver
 // ---------------------------------------------------------------------------------------
@@ -1484,7 +1580,7 @@ fn absorb(rep: &Report, out: CaseOut) {
 pub fn run(tier: Tier, seed: u64) -> i32 {
     let rep = Report::new("C20", tier, seed, Level::Exploration);
     rep.set_rule(
-        "every string of ≤ k tokens from the path-significant alphabet (joined with and without '/', deduplicated; typed-field surfaces: full sequence in both layouts for one token less; network-shaped surfaces: one token less) × every string-taking surface (DiskCache raw keys in both directory layouts, every string field of every typed key in both layouts, ProtocolCache, RibbitTactClient::query, CdnClient endpoint path, CdnClient archive key, RangeDownloader archive name, Storage::open_installation), each a fixed call sequence in a fresh sandbox with a snapshot of everything outside the configured directory after every call; plus content keys of every length 0..=32 × 3 content types × 7 CdnClient calls, the 3×3 offset/length grid, boundary fixed-width binary keys, and every ordered pair of distinct keys from a universe of well-formed typed keys / endpoint-like names in both layouts. evaluations = calls of the code under test; a (surface, string) case is non-trivial when the calls left at least one file under the configured directory or changed something outside it",
+        "every string of ≤ k tokens from the path-significant alphabet (joined with and without '/', deduplicated; typed-field surfaces: full sequence in both layouts for one token less; network-shaped surfaces: one token less) × every string-taking surface (DiskCache raw keys in both directory layouts, every string field of every typed key in both layouts, ProtocolCache, RibbitTactClient::query, CdnClient endpoint path, CdnClient archive key, RangeDownloader archive name, Storage::open_installation), each a fixed call sequence in a fresh sandbox with a snapshot of everything outside the configured directory after every call; plus content keys of every length 0..=32 × 3 content types × 7 CdnClient calls, the 3×3 offset/length grid, boundary fixed-width binary keys, and every ordered pair of distinct keys from a universe of well-formed typed keys / endpoint-like names in both layouts, and every ordered pair of distinct accepted endpoints (product segments differing only in '_', '-', '.', '/', case) through RibbitTactClient::query on one cache directory against a mock whose answers name the request target. evaluations = calls of the code under test; a (surface, string) case is non-trivial when the calls left at least one file under the configured directory or changed something outside it",
     );
     rep.assume("absolute test strings are re-rooted at <sandbox>/absroot (an absolute path outside the configured directory) so that the run itself never leaves its scratch directory; Path::join treats every absolute argument alike");
     rep.assume("network-shaped APIs run against a loopback HTTP mock that answers every request with 200 and a small BPSV body; CDN host strings are not varied (host never reaches a path or cache key; bare names would need DNS)");
@@ -1626,6 +1722,24 @@ pub fn run(tier: Tier, seed: u64) -> i32 {
         absorb(&rep, out);
     });
 
+    par_map(QUERY_EPS.len() * QUERY_EPS.len(), |idx| {
+        let (i, j) = (idx / QUERY_EPS.len(), idx % QUERY_EPS.len());
+        if i == j {
+            return;
+        }
+        let (sb, base, meta) = take_sandbox();
+        let mut out = CaseOut::default();
+        query_pair_case(i, j, &sb, &mut out);
+        give_back(sb, base, meta);
+        absorb(&rep, out);
+    });
+
+    let qj = QPAIRS_JUDGED.load(std::sync::atomic::Ordering::Relaxed);
+    rep.extra("query_endpoint_pairs_judged", json!(qj));
+    if qj < 20 {
+        rep.machinery_error("vacuous endpoint-pair part: fewer than 20 pairs of accepted endpoints were answered differently by the mock");
+    }
+
     let t_pairs = rep.elapsed_s();
     rep.extra("phase_wall_s", json!({"strings": t_strings, "key_lengths_ranges_fixed_width": t_fixed - t_strings, "pairs": t_pairs - t_fixed}));
     let mut calls = serde_json::Map::new();
@@ -1691,6 +1805,10 @@ fn replay_sigs(w: &Value, verbose: bool) -> Vec<String> {
             let u = universe();
             let sb = Sandbox::new();
             typed_pair_case(&u, w["i"].as_u64().unwrap_or(0) as usize, w["j"].as_u64().unwrap_or(1) as usize, &sb, &mut out);
+        }
+        "query-pair" => {
+            let sb = Sandbox::new();
+            query_pair_case(w["i"].as_u64().unwrap_or(0) as usize, w["j"].as_u64().unwrap_or(1) as usize, &sb, &mut out);
         }
         "name-pair" => {
             let sb = Sandbox::new();
